@@ -35,6 +35,7 @@ type Obligation struct {
 	Vars2     map[string]Sort
 	UsedTol   bool
 	Hunt      bool
+	Env       []string // environment of the native replay (e.g. GOMAXPROCS chosen on this path)
 	ScriptHash string
 	Probed     bool
 	ProbeModels []Model
@@ -104,6 +105,7 @@ type Interp struct {
 	pruneAll  bool
 	deferredFacts []string
 	pools     map[string][]Value
+	replayEnv []string
 	trivialN    int
 	harnessFn   map[*ssa.Function]bool
 	stash       map[string]Value
@@ -360,7 +362,7 @@ func (in *Interp) obligation(label, kind string, cond *Term) {
 	// the whole path condition: guards of unpruned arms may be infeasible on their own, and a
 	// counterexample must give a value to every harness symbol to be replayable
 	q := append(in.pc(), neg)
-	ob := &Obligation{Harness: in.harness, Label: label, Kind: kind, Site: in.site(in.curInstr()), PathID: in.pathID, Hunt: in.huntNext}
+	ob := &Obligation{Harness: in.harness, Label: label, Kind: kind, Site: in.site(in.curInstr()), PathID: in.pathID, Hunt: in.huntNext, Env: append([]string{}, in.replayEnv...)}
 	in.fillScript(ob, q)
 	in.emit(ob)
 	if kind != "assert" {
@@ -374,7 +376,7 @@ func (in *Interp) obligation2(label string, exact, tol *Term) {
 		in.obligation(label, "assert", exact)
 		return
 	}
-	ob := &Obligation{Harness: in.harness, Label: label, Kind: "assert", Site: in.site(in.curInstr()), PathID: in.pathID}
+	ob := &Obligation{Harness: in.harness, Label: label, Kind: "assert", Site: in.site(in.curInstr()), PathID: in.pathID, Env: append([]string{}, in.replayEnv...)}
 	in.fillScript(ob, append(in.pc(), in.ts.Not(exact)))
 	ob2 := &Obligation{}
 	in.fillScript(ob2, append(in.pc(), in.ts.Not(tol)))
